@@ -76,7 +76,11 @@ static runres drive(lzma_stream *s, const unsigned char *in, size_t n, const pla
 		}
 		if (act != LZMA_RUN) finish_started = 1;
 		size_t bi = s->avail_in, bo = s->avail_out;
+		// the offered windows are hard limits: the four bytes behind the output window carry a canary during the call
+		unsigned char *wend = s->next_out + s->avail_out; unsigned char keep[4]; memcpy(keep, wend, 4); memset(wend, 0xC7, 4);
 		lzma_ret ret = lzma_code(s, act); r.calls++;
+		int over = s->avail_in > bi || s->avail_out > bo || wend[0] != 0xC7 || wend[1] != 0xC7 || wend[2] != 0xC7 || wend[3] != 0xC7; memcpy(wend, keep, 4);
+		if (over) { r.ret = ret; r.weird = 3; break; }
 		if (ret == LZMA_OK) {
 			if (bi == s->avail_in && bo == s->avail_out) { if (++stall > 4) { r.ret = LZMA_OK; r.weird = 1; break; } } else stall = 0;
 			if (r.calls > maxcalls) { r.weird = 2; r.ret = LZMA_OK; break; }
